@@ -94,6 +94,16 @@ Theorem C20_inputs_have_distinct_jobs :
 Proof. exact run_ids_distinct. Qed.
 Print Assumptions C20_inputs_have_distinct_jobs.
 
+(* ... and a path that is listed twice among the inputs of one run is ONE job: both occurrences get the same id
+   (stated over the loop that follows the multi-file ingest's own registration; any starting table). *)
+Theorem C20_same_path_same_job :
+  forall (l : list (nat * Z)) (t : table) (js : list Z) (a b p : nat) (h ia ib : Z),
+    assign t l = Some js -> Z.of_nat (List.length t + List.length l) < 10000 -> (a < b)%nat ->
+    nth_error l a = Some (p, h) -> nth_error l b = Some (p, h) ->
+    nth_error js a = Some ia -> nth_error js b = Some ib -> ia = ib.
+Proof. exact assign_same_path. Qed.
+Print Assumptions C20_same_path_same_job.
+
 Theorem C20_job_ids_always_assigned :
   forall (top : Z) (l : list (nat * Z)), Z.of_nat (List.length l) < 10000 -> run_ids top l <> None.
 Proof. exact run_ids_total. Qed.
